@@ -51,7 +51,7 @@ Matches(s) ==
     /\ \A n \in Nodes : Exists(n) <=> n \in DOMAIN s
     /\ \A n \in Nodes : Exists(n) =>
           /\ st[n] = s[n].st
-          /\ st[n] = "DONE" \/ Live(n) = s[n].live     \* the context of a completed runnable is observable only through its descendants
+          /\ Live(n) = s[n].live
 
 Silent ==
     \/ \E n \in Nodes : Schedule(n) \/ BackoffElapsed(n) \/ ProcessDied(n)
